@@ -74,7 +74,7 @@ fn check(b: &[u8], e: &[u8], what: &str) {
 }
 
 fn run_op(hs: &mut Vec<H>, base: Option<&Bytes>, base_expect: &[u8], op: u8) {
-    match op % 13 {
+    match op % 14 {
         0 => {
             if let Some(b) = base {
                 let c = b.clone();
@@ -82,6 +82,16 @@ fn run_op(hs: &mut Vec<H>, base: Option<&Bytes>, base_expect: &[u8], op: u8) {
                     fail("clone through &Bytes at another address".into());
                 }
                 hs.push(H::B(c, base_expect.to_vec()));
+            }
+        }
+        13 => {
+            if let Some(H::M(m, e)) = hs.last_mut() {
+                if m.len() >= 2 {
+                    let part = m.split_to(1);
+                    check(&part[..], &e[..1], "split-off part");
+                    e.remove(0);
+                    drop(part);
+                }
             }
         }
         1 => {
@@ -129,7 +139,7 @@ fn run_op(hs: &mut Vec<H>, base: Option<&Bytes>, base_expect: &[u8], op: u8) {
             }
             if let Some(H::B(b, e)) = hs.pop() {
                 let p = b.as_ptr() as usize;
-                match op % 13 {
+                match op % 14 {
                     5 => match b.try_into_mut() {
                         Ok(mut m) => {
                             check(&m[..], &e, "try_into_mut");
@@ -160,8 +170,8 @@ fn run_op(hs: &mut Vec<H>, base: Option<&Bytes>, base_expect: &[u8], op: u8) {
         }
         8 | 9 => {
             if let Some(H::M(m, e)) = hs.last_mut() {
-                let want = if op % 13 == 8 { N } else { N / 2 + 1 };
-                let ok = if op % 13 == 8 {
+                let want = if op % 14 == 8 { N } else { N / 2 + 1 };
+                let ok = if op % 14 == 8 {
                     m.reserve(want);
                     true
                 } else {
